@@ -30,7 +30,7 @@ type val struct {
 	vals  []*val
 }
 
-var scalarPool = []string{"a", "b", "1", "x y", "true", "null", "~"}
+var scalarPool = []string{"a", "b", "1", "x y", "true", "null", "~", "a ", " a"}
 var exprPool = []string{"${{ matrix.v }}", "${{ fromJSON(env.X) }}", "pre-${{ github.sha }}"}
 var objKeyPool = []string{"name", "m", "ver", "Name", "z"}
 var rowKeyPool = []string{"os", "ver", "arch", "OS", "node"}
@@ -175,10 +175,14 @@ type genMatrix struct {
 	excExpr string
 	exclude []genComb
 	hasExc  bool
+	kwCase  int // spelling of the include / exclude keywords
 }
 
 func genMatrixCase(r *hx.Rng) *genMatrix {
 	m := &genMatrix{}
+	if r.Chance(1, 4) {
+		m.kwCase = 1 + r.Intn(2)
+	}
 	if r.Chance(1, 40) {
 		m.expr = "${{ fromJSON(env.M) }}"
 		return m
@@ -316,11 +320,12 @@ func (m *genMatrix) workflow() string {
 				}
 			}
 		}
+		// (the section keywords are matrix keys like any other: compared case-insensitively)
 		if m.hasInc {
-			writeCombs("include", m.incExpr, m.include)
+			writeCombs([]string{"include", "Include", "INCLUDE"}[m.kwCase%3], m.incExpr, m.include)
 		}
 		if m.hasExc {
-			writeCombs("exclude", m.excExpr, m.exclude)
+			writeCombs([]string{"exclude", "EXCLUDE", "Exclude"}[m.kwCase%3], m.excExpr, m.exclude)
 		}
 		if empty {
 			b.WriteString("        dummy: [1]\n")
@@ -786,7 +791,13 @@ func fidelity(g *genMatrix, m *actionlint.Matrix) string {
 		}
 	}
 	combs := func(name string, gs []genComb, cs *actionlint.MatrixCombinations) string {
-		if cs == nil || cs.Expression != nil {
+		if cs == nil {
+			if len(gs) == 0 {
+				return "" // (an empty section is a syntax error of the workflow)
+			}
+			return name + " section lost"
+		}
+		if cs.Expression != nil {
 			return ""
 		}
 		if len(cs.Combinations) != len(gs) {
